@@ -504,6 +504,9 @@ func (p *Prog) OwnedBy(fn *ssa.Function, owner string) bool {
 		if p.FuncKey(f) == owner {
 			return true
 		}
+		if _, existing := expectedFuncs[p.FuncKey(f)]; existing {
+			return false // a function of the confirmed tree is nobody's helper
+		}
 		css := p.CallSites(f)
 		if depth > 3 || len(css) == 0 {
 			return false
